@@ -249,6 +249,35 @@ Theorem C12_hierarchical_valid_spec : forall x,
 Proof. exact hierarchical_valid_spec. Qed.
 Print Assumptions C12_hierarchical_valid_spec.
 
+Theorem C12_boolexpr_valid_spec : forall x,
+  valid TBoolexpr x = true ->
+  let d := untag x in
+  node_ok (fld k_root d) /\
+  seteqN (keys_of (fld k_shareholders d)) (node_leaves 64 (fld k_root d)) = true /\
+  (forall k v, In (k, v) (pairs_of (fld k_shareholders d)) -> v = Simple 21).
+Proof. exact boolexpr_valid_spec. Qed.
+Print Assumptions C12_boolexpr_valid_spec.
+
+Theorem C12_pedshare_valid_spec : forall c x,
+  valid (TPedShare c) x = true ->
+  nat_of (fld k_sharingID x) <> 0 /\ arr_of (fld k_secret x) <> [] /\ arr_of (fld k_blinding x) <> [] /\
+  len (arr_of (fld k_secret x)) = len (arr_of (fld k_blinding x)).
+Proof. exact pedshare_valid_spec. Qed.
+Print Assumptions C12_pedshare_valid_spec.
+
+Theorem C12_dklspartial_valid_spec : forall c x,
+  valid (TDklsPartial c) x = true ->
+  scalar_is_zero (fld k_u x) = false /\ scalar_is_zero (fld k_w x) = false /\
+  len (bytes_of (fld k_compressedBytes (fld k_r x))) = c_plen c.
+Proof. exact dklspartial_valid_spec. Qed.
+Print Assumptions C12_dklspartial_valid_spec.
+
+Theorem C12_natplus_valid_spec : forall x,
+  valid TNatPlus x = true ->
+  exists b, In b (bytes_of (fld k_natBytes (fld k_natPlus x))) /\ b <> 0.
+Proof. exact natplus_valid_spec. Qed.
+Print Assumptions C12_natplus_valid_spec.
+
 (* ---- non-vacuity: concrete instances of the hypotheses ------------------------------------- *)
 
 (* the library's encoding of the (2, {1,2,300}) threshold structure:
